@@ -339,9 +339,9 @@ fn worker(args: &[String]) {
                 if let Some(f) = g.focus {
                     agg.focus_seen.insert((f.op as u64) | (f.kind as u64) << 8 | (f.via as u64) << 16 | (f.sink as u64) << 24 | (f.form as u64) << 32);
                 }
-                if agg.samples.len() < 3 && rel && rep.violation.is_none() && s.steps.len() <= 24 {
-                    agg.samples.push(scn::to_text(&s, &infos.iter().find(|i| i.id == s.world).unwrap().name(), prop, "-", ""));
-                }
+            }
+            if agg.samples.len() < 3 && rel && rep.violation.is_none() && s.steps.len() <= 24 {
+                agg.samples.push(scn::to_text(&s, &infos.iter().find(|i| i.id == s.world).unwrap().name(), prop, "-", ""));
             }
             if let Some(v) = &rep.violation {
                 if v.class == Class::Unsupported {
@@ -435,7 +435,7 @@ fn crash_violation(s: &Scenario, infos: &[WorldInfo], detail: String) -> Violati
         let forget = last.map(|st| (st.op == Op::Take && st.sink == SINK_FORGET) || (matches!(st.op, Op::Drain | Op::Splice) && (st.sink % 2 == END_FORGET || st.script.iter().any(|b| (b >> 1) % ITEM_KINDS == ITEM_FORGET)))).unwrap_or(false);
         if forget { 5 } else { 0 }
     });
-    Violation { class: Class::Crash, step: s.steps.len() as i32 - 1, op: last.map(|st| st.op).unwrap_or(Op::Nop), via: last.map(|st| st.via % 3).unwrap_or(0), on_stack, faulted, panic_involved: false, context: String::new(), detail }
+    Violation { class: Class::Crash, step: s.steps.len() as i32 - 1, op: last.map(|st| st.op).unwrap_or(Op::Nop), via: last.map(|st| st.via % 3).unwrap_or(0), on_stack, faulted, panic_involved: false, ownership: false, context: String::new(), detail }
 }
 
 fn without_steps(s: &Scenario, from: usize, to: usize) -> Option<Scenario> {
@@ -983,6 +983,12 @@ fn check(prop: &str, tier: &str) -> i32 {
         }
     }
     let _ = done_indices;
+    if total.samples.is_empty() {
+        // always show at least one actual case of this batch
+        let g = generate(seed, 0, &prof, &infos);
+        let name = infos.iter().find(|i| i.id == g.scn.world).map(|i| i.name()).unwrap_or_default();
+        total.samples.push(scn::to_text(&g.scn, &name, prop, "-", ""));
+    }
     let wall_batch = start.elapsed().as_secs_f64();
 
     // triage: one representative per signature
